@@ -375,7 +375,10 @@ template <class T> static void sweep (uint64_t seed, bool thorough, int lineBloc
     const T dn = std::numeric_limits<T>::denorm_min ();
     Rng     g{seed * 0x9E3779B97F4A7C15ull + 12345};
     for (int i = 0; i < 4; ++i) g.next ();
-    std::vector<T> D = {T (0), T (1), T (-1), dn, -dn, T (1e-30), T (-1e-30), T (1e30), T (-1e30), M / 2, -M / 2};
+    // -0.0 LAST (keeps the relative order, hence the canonical witnesses, of all other cases): `-0.0 >= 0` is true and
+    // `-0.0 > 0`, `-0.0 < 0` are false, so it must behave exactly like +0.0 (the tie with the model executed in floating
+    // point checks that; a rewrite through signbit / copysign / 1/dir would not)
+    std::vector<T> D = {T (0), T (1), T (-1), dn, -dn, T (1e-30), T (-1e-30), T (1e30), T (-1e30), M / 2, -M / 2, -T (0)};
     std::vector<SweepBox<T>> boxes;
     auto add = [&] (const char* name, const Box<Vec3<T>>& b) { SweepBox<T> sb; sb.name = name; sb.b = b; boxes.push_back (sb); };
     // --- deterministic
